@@ -145,6 +145,9 @@ FAIL_EXPR = [
     ('negative-index-out-of-range', ['hl', '[', '-', '99', ']']),
     ('pop-empty', ['pop', '(', 'he', ')']),
     ('pop-index-out-of-range', ['pop', '(', 'hl', ',', '99', ')']),
+    # positions with thousands of digits (host decimal 1E+5000, host int 10 ** 5000) are missing positions like any other
+    ('index-huge', ['hl', '[', 'huge', ']']), ('negative-index-huge', ['hl', '[', '-', 'huge', ']']), ('index-huge-int', ['hl', '[', 'hugei', ']']),
+    ('string-index-huge', ['hs', '[', 'huge', ']']), ('pop-index-huge', ['pop', '(', 'hl', ',', 'huge', ')']),
     ('push-full', ['push', '(', 'full', ',', '1', ')']),
     ('insert-full', ['insert', '(', 'full', ',', '0', ',', '1', ')']),
 ]
@@ -155,6 +158,7 @@ FAIL_STMT = [
     ('index-out-of-range-compound', ['hl', '[', '99', ']', '-=', '1']),
     ('index-out-of-range-compound-mul', ['hl', '[', '99', ']', '*=', '2']),
     ('index-out-of-range-compound-div', ['hl', '[', '-', '99', ']', '/=', '2']),
+    ('index-huge-compound', ['hl', '[', 'huge', ']', '+=', '1']),
     ('missing-key-compound-sub', ['hd', '[', '"nokey"', ']', '-=', '1']),
     ('missing-key-compound-mul', ['hd', '[', '"nokey"', ']', '*=', '1']),
     ('missing-key-compound-div', ['hd', '[', '"nokey"', ']', '/=', '1']),
@@ -170,7 +174,7 @@ def host_names():
     D = api.Decimal
     return {
         'a': D(1), 'b': D(2), 'x': D(3), 'p': D(4), 'q': D(5),
-        'hd': {'k': D(1)}, 'hl': [D(1), D(2)], 'he': [],
+        'hd': {'k': D(1)}, 'hl': [D(1), D(2)], 'he': [], 'huge': D('1E+5000'), 'hugei': 10 ** 5000, 'hs': 'abc',
         'full': [0] * 10000, 'fulld': {str(i): 0 for i in range(10000)},
         'f': lambda *a: D(1), 'g': lambda *a: D(1), 'h': lambda *a: D(1),
     }
@@ -216,11 +220,11 @@ def is_target_for(kind):
                 return True
             if node.name in ('__getitem__', '__setitem_with_op__', '__setitem__') and node.args:
                 a0 = node.args[0]
-                if type(a0).__name__ == 'NameOp' and a0.name in ('hd', 'hl', 'full', 'fulld'):
+                if type(a0).__name__ == 'NameOp' and a0.name in ('hd', 'hl', 'full', 'fulld', 'hs'):
                     k = node.args[1]
                     kv = getattr(k, 'v', None)
                     if kv == 'nokey' or kv == 'new' or kv == 99 or type(k).__name__ == 'UnaryOp' \
-                            or a0.name in ('full', 'fulld'):
+                            or a0.name in ('full', 'fulld') or getattr(k, 'name', None) in ('huge', 'hugei'):
                         return True
             if node.name in ('pop', 'push', 'insert') and node.args:
                 a0 = node.args[0]
